@@ -451,12 +451,14 @@ func (c *Client) SendAndRead(ctx context.Context, dest *net.UDPAddr, msg *dhcpv6
 		c.logger.PrintMessage("sent message", msg)
 		defer rem()
 
+		// One timer per try: a packet that match rejects must not restart the wait.
+		deadline := time.After(timeout)
 		for {
 			select {
 			case <-c.done:
 				return ErrNoResponse
 
-			case <-time.After(timeout):
+			case <-deadline:
 				return errDeadlineExceeded
 
 			case <-ctx.Done():
